@@ -71,6 +71,7 @@ def run(P, R, tier):
     orientation_table(P, R)
     box_edges(P, R, tier)
     _common.nan_buffers(P, R, 'C01.l', ['spatialpandas.geometry.point'], floor=1)      # PointArray.x / .y: the coordinates compared with the box corners are float64
+    _common.scratch_per_iteration(P, R, 'C01.c', ['spatialpandas.geometry._algorithms.intersection', 'spatialpandas.geometry._algorithms.bounds', 'spatialpandas.geometry._algorithms.measures', 'spatialpandas.geometry.point', 'spatialpandas.geometry.baselist'])
     nmk = _common.masked_offsets(P, R, 'C01.d')
     R.floor('C01.d', 'validity masks attached to offsets', nmk, 2)
     _common.forward(P, R, 'C13', ['C13.b'], 'C01.c', 'a bounding box consulted for element inds[i] is computed from that element (never a cached row of another position)', floor=10)
